@@ -652,6 +652,43 @@ func init() {
 		m.spawnLogical(func() { m.callValue(f, nil, nil) })
 		return nil
 	}
+	// Race2(label, a, b): see race.go.  The path forks: it runs handler a or handler b with access
+	// recording on; the checker combines the accesses of a-paths and b-paths of the entry (same setup,
+	// hence the same object identities) into candidate conflicts and asks the solver whether both paths
+	// are possible from one setup.
+	I["zzverif.Race2"] = func(m *Machine, fn *ssa.Function, args []Value) Value {
+		label := constStr(args[0], "race label")
+		side := m.choose(2)
+		m.race = raceState{on: true, region: side + 1, mark: m.cellID, seen: map[string]bool{}, label: label}
+		m.effect("spawn", smt.StrC("race2")) // scheduler-dependent natively: not a translator-validation case
+		if side == 1 {
+			m.regionTag = "rb." // what the second handler draws is a different symbol from the first one's
+		}
+		m.callValue(args[1+side], nil, nil)
+		m.regionTag = ""
+		m.race.on = false
+		m.recordRaceOK(label)
+		return nil
+	}
+	// RaceTouch(ptr, write): the (stubbed) collaborator reads / writes the whole object behind ptr here, as
+	// its real counterpart does (the bbolt store marshals the complete record).
+	I["zzverif.RaceTouch"] = func(m *Machine, fn *ssa.Function, args []Value) Value {
+		if !m.race.on {
+			return nil
+		}
+		var p *Ptr
+		switch v := args[0].(type) {
+		case *IfaceV:
+			p, _ = v.V.(*Ptr)
+		case *Ptr:
+			p = v
+		}
+		if p == nil {
+			return nil
+		}
+		m.raceTouch(p, args[1].(*smt.Term).IsTrue())
+		return nil
+	}
 	I["zzverif.Blocked"] = func(m *Machine, fn *ssa.Function, args []Value) Value {
 		return smt.BVC(64, uint64(m.blockedLogical()))
 	}
